@@ -509,6 +509,18 @@ func (c *capture) StoreDocuments(_ context.Context, n int, docs, metas []byte) e
 	return nil
 }
 
+// colonTag marks failures of cases whose mapping has a field name containing ':' - the class of
+// the recorded finding "token-identity" (known_findings.json): the store identifies a token by
+// the bytes field + ":" + value, so (a, "b:c") and (a:b, "c") are one token.
+func colonTag(c *Case) string {
+	for _, f := range c.Mapping {
+		if strings.Contains(f.Name, ":") {
+			return ":field-name-with-colon"
+		}
+	}
+	return ""
+}
+
 // reloadable: a mapping provider whose mapping can be replaced, as mappingprovider does when
 // the mapping file changes
 type reloadable struct {
@@ -1305,7 +1317,7 @@ func (r *runner) endToEnd(cp *capture, id seq.ID) error {
 				}
 			}
 			if !found {
-				return evid.Failf("e2e-"+q.what+"-miss", "%s fraction: query %s matches the emitted tokens by the reference evaluator but the store did not return the document", phase, short(q.text))
+				return evid.Failf("e2e-"+q.what+"-miss"+colonTag(r.c), "%s fraction: query %s matches the emitted tokens by the reference evaluator but the store did not return the document", phase, short(q.text))
 			}
 		}
 		return nil
